@@ -130,6 +130,26 @@ def run(prog: Program, L: Ledger) -> None:
                     L.violation("P1", f"{fi.qualname}:{k}.{n.attr}", where,
                                 f"{fi.qualname} {rw} `{norm(n)}` on a user {k} object: `{n.attr}` is not part of the documented protocol ({', '.join(sorted(surface))})",
                                 f"a structurally conforming user {k} without `{n.attr}`: AttributeError / silently different behaviour in {fi.qualname}", norm(n))
+            elif isinstance(n, ast.Compare):
+                sides = [n.left] + list(n.comparators)
+                for op, a, b in zip(n.ops, sides, sides[1:]):
+                    if isinstance(op, (ast.Eq, ast.NotEq, ast.In, ast.NotIn, ast.Lt, ast.LtE, ast.Gt, ast.GtE)):
+                        for side in (a, b):
+                            k = kind_of(side)
+                            if k is None or (isinstance(op, (ast.In, ast.NotIn)) and side is b):
+                                continue
+                            other = b if side is a else a
+                            if isinstance(other, ast.Constant) and other.value is None:
+                                continue
+                            n_uses += 1
+                            L.violation("P1", f"{fi.qualname}:{k}.__eq__", f"{fi.module.relpath}:{n.lineno}",
+                                        f"`{norm(n)[:80]}` compares / looks up a user {k} object by value: this calls its __eq__ (or __hash__), which is not part of the documented protocol — only identity (`is`, id()) is",
+                                        f"two distinct user {k}s that compare equal (e.g. dataclasses with equal settings): one of them is treated as the other (here: skipped)", norm(n)[:100])
+            elif isinstance(n, ast.Call) and isinstance(n.func, ast.Attribute) and n.func.attr in ("index", "count", "remove", "add", "discard") and n.args and kind_of(n.args[0]) is not None and not norm(n.func).startswith("self.move_history"):
+                n_uses += 1
+                L.violation("P1", f"{fi.qualname}:{kind_of(n.args[0])}.__eq__/__hash__", f"{fi.module.relpath}:{n.lineno}",
+                            f"`{norm(n)[:80]}` stores / searches a user object by value (its __eq__/__hash__): not part of the documented protocol",
+                            "distinct user objects that compare equal are conflated", norm(n)[:100])
             elif isinstance(n, ast.Call) and kind_of(n.func) == "move":
                 n_uses += 1
                 L.ok("P1", f"{fi.qualname}:move.__call__", f"{fi.module.relpath}:{n.lineno}")
